@@ -51,8 +51,10 @@ func SetContracts(x *sym.Exec, spec string) {
 func PrintJobResult(w io.Writer, r *sym.JobResult, detail bool) {
 	proved, violated, unknown, trivial := 0, 0, 0, 0
 	byID := map[string][3]int{}
+	msByID := map[string]int64{}
 	for _, o := range r.Obls {
 		c := byID[o.ID]
+		msByID[o.ID] += o.Millis
 		switch o.Status {
 		case "proved":
 			proved++
@@ -79,7 +81,7 @@ func PrintJobResult(w io.Writer, r *sym.JobResult, detail bool) {
 		sort.Strings(ids)
 		for _, id := range ids {
 			c := byID[id]
-			fmt.Fprintf(w, "   %-28s proved=%d violated=%d unknown=%d\n", id, c[0], c[1], c[2])
+			fmt.Fprintf(w, "   %-28s proved=%d violated=%d unknown=%d  solver_ms=%d\n", id, c[0], c[1], c[2], msByID[id])
 		}
 		for k, v := range r.Reached {
 			fmt.Fprintf(w, "   reach %-22s %d\n", k, v)
